@@ -124,6 +124,40 @@ def agree_ref(ctx, fi, ref_src, title, what=('return', 'heap', 'substores'), rul
             st = [e for e in I.events if e.kind == 'store' and e.data.get('target') == 'attr' and e.data.get('name') == k[1]]
             ctx.formula(rule, f'{title}: self.{k[1]} at exit == reference definition', fi, a, b,
                         node=(st[-1].node if st else fi.node), construct=f'self.{k[1]} at exit')
+    if 'attrstores' in what:
+        def sel(II, own):
+            return [e for e in II.events if e.kind == 'store' and e.data.get('target') == 'attr'
+                    and (own is None or e.func.short == own)]
+        sa, sb = sel(I, fi.short), sel(IR, None)
+        if [e.data['name'] for e in sa] != [e.data['name'] for e in sb]:
+            ctx.ob(rule, f'{title}: same sequence of attribute updates as the reference', fi, False,
+                   {'code': [e.text()[:80] for e in sa], 'reference': [e.text()[:80] for e in sb]}, node=fi.node,
+                   construct='attribute stores')
+        else:
+            for ea, eb in zip(sa, sb):
+                ctx.formula(rule, f'{title}: object updated by `{ea.data["name"]}` store == reference', fi, ea.data['base'],
+                            eb.data['base'], node=ea.node, construct=ea.text()[:80] + ' [object]')
+                ctx.formula(rule, f'{title}: value stored into .{ea.data["name"]} == reference', fi, ea.data['value'],
+                            eb.data['value'], node=ea.node, construct=ea.text()[:80] + ' [value]')
+                ctx.formula(rule, f'{title}: condition of the .{ea.data["name"]} store == reference', fi, ea.cond(), eb.cond(),
+                            node=ea.node, construct=ea.text()[:80] + ' [guard]')
+    if 'calls' in what:
+        def selc(II, own):
+            return [e for e in II.events if e.kind == 'call' and (own is None or e.func.short == own)
+                    and (e.data.get('resolved') is not None or e.data.get('method'))]
+        ca, cb = selc(I, fi.short), selc(IR, None)
+        if [e.data['name'] for e in ca] != [e.data['name'] for e in cb]:
+            ctx.ob(rule, f'{title}: same sequence of method/package calls as the reference', fi, False,
+                   {'code': [e.text()[:80] for e in ca], 'reference': [e.text()[:80] for e in cb]}, node=fi.node,
+                   construct='call sequence')
+        else:
+            for ea, eb in zip(ca, cb):
+                aa = T.mk_tuple(list(ea.data['args']) + [v for _, v in sorted(ea.data['kwargs'])])
+                ab = T.mk_tuple(list(eb.data['args']) + [v for _, v in sorted(eb.data['kwargs'])])
+                ctx.formula(rule, f'{title}: arguments of {ea.data["name"]} == reference', fi, aa, ab, node=ea.node,
+                            construct=ea.text()[:80] + ' [args]')
+                ctx.formula(rule, f'{title}: condition of the {ea.data["name"]} call == reference', fi, ea.cond(), eb.cond(),
+                            node=ea.node, construct=ea.text()[:80] + ' [guard]')
     if 'raises' in what:
         ra = [e for e in I.events if e.kind == 'raise' and e.func.short == fi.short]
         rb = [e for e in IR.events if e.kind == 'raise']
